@@ -81,14 +81,18 @@ package message
 //@ spec wfOptions(o Options) bool = sortedOpts(o) && len(o) <= 4294967296 && (forall j int :: {o[j].ID} 0 <= j && j < len(o) ==> len(o[j].Value) <= 65804)
 //@ spec optAt(b []byte, p int, o Options, j int) bool = hdrAt(b, p, delta(o, j), len(o[j].Value)) && bytesEqOld(b[p + 1 + hs(delta(o, j)) + hs(len(o[j].Value)) : p + optSize(o, j)], o[j].Value)
 //
+//@ spec optsAt(b []byte, o Options) bool = forall j int :: {encLen(o, j)} 0 <= j && j < len(o) ==> 0 <= encLen(o, j) && encLen(o, j) + optSize(o, j) <= encLen(o, len(o)) && optAt(b, encLen(o, j), o, j)
+//@ spec valuesDisjoint(b []byte, o Options) bool = forall j int :: {o[j].ID} 0 <= j && j < len(o) ==> disjoint(b, o[j].Value)
+//
 //@ func (Options) Marshal(buf []byte) (n int, err error)
 //@   requires wfOptions(options)
-//@   requires forall j int :: {options[j].ID} 0 <= j && j < len(options) ==> disjoint(buf, options[j].Value)
+//@   requires valuesDisjoint(buf, options)
 //@   modifies buf[0 : len(buf)]
 //@   ensures [size] n == encLen(options, len(options))
 //@   ensures [fits-iff] (err == nil) <==> (buf != nil && n <= len(buf))
 //@   ensures [err-kind] err != nil ==> err == ErrTooSmall
-//@   ensures [layout] err == nil ==> forall j int :: {encLen(options, j)} 0 <= j && j < len(options) ==> 0 <= encLen(options, j) && encLen(options, j) + optSize(options, j) <= n && optAt(buf, encLen(options, j), options, j)
+//@   ensures [size-bound] 0 <= n && n <= 65809 * len(options)
+//@   ensures [layout] err == nil ==> optsAt(buf, options)
 //@   loop 0:
 //@     modifies buf[0 : len(buf)]
 //@     invariant 0 <= #iter && #iter <= len(options)
@@ -126,6 +130,11 @@ package message
 //@ spec keptRaw(d []byte, defs map[OptionID]OptionDef, k int) bool = rawNum(d, k+1) != 0 && kept(defs, rawNum(d, k+1), rawLen(d, rawStart(d, k)))
 //@ spec rec nKept(d []byte, defs map[OptionID]OptionDef, k int) int = ite(k <= 0, 0, nKept(d, defs, k-1) + ite(keptRaw(d, defs, k-1), 1, 0))
 //
+//@ spec prefixOK(d []byte, K int) bool = K >= 0 && (forall j int :: {rawStart(d, j)} 0 <= j && j < K ==> rawOK(d, j))
+//@ spec parsedOK(d []byte, K int) bool = prefixOK(d, K) && terminal(d, rawStart(d, K))
+//@ spec consumedBy(d []byte, K int) int = rawStart(d, K) + ite(rawStart(d, K) < len(d), 1, 0)
+//@ spec decodedOpts(o Options, base int, d []byte, defs map[OptionID]OptionDef, K int) bool = len(o) == base + nKept(d, defs, K) && (forall j int :: {rawStart(d, j)} 0 <= j && j < K && keptRaw(d, defs, j) ==> 0 <= nKept(d, defs, j) && nKept(d, defs, j) < nKept(d, defs, K) && o[base + nKept(d, defs, j)].ID == rawNum(d, j+1) && o[base + nKept(d, defs, j)].Value == d[rawValPos(d, j) : rawValPos(d, j) + rawLen(d, rawStart(d, j))])
+//
 //@ func (*Option) Unmarshal(data []byte, optionDefs map[OptionID]OptionDef, optionID OptionID) (n int, err error)
 //@   requires o != nil && len(data) < 4294967296
 //@   modifies o.ID, o.Value
@@ -136,16 +145,15 @@ package message
 //@ func (*Options) Unmarshal(data []byte, optionDefs map[OptionID]OptionDef) (n int, err error)
 //@   requires options != nil
 //@   modifies *options, (*options)[len(*options) : cap(*options)]
-//@   ensures [parsed] err == nil ==> (forall j int :: {rawStart(data, j)} 0 <= j && j < #n0 ==> rawOK(data, j)) && terminal(data, rawStart(data, #n0))
-//@   ensures [consumed] err == nil ==> n == rawStart(data, #n0) + ite(rawStart(data, #n0) < len(data), 1, 0) && n <= len(data)
-//@   ensures [rejects] err != nil && !errors.Is(err, ErrOptionsTooSmall) ==> (forall j int :: {rawStart(data, j)} 0 <= j && j < #n0 ==> rawOK(data, j)) && !terminal(data, rawStart(data, #n0)) && !rawOK(data, #n0)
-//@   ensures [too-small-prefix] errors.Is(err, ErrOptionsTooSmall) ==> (forall j int :: {rawStart(data, j)} 0 <= j && j < #n0 ==> rawOK(data, j))
+//@   ensures [parsed] err == nil ==> parsedOK(data, #n0)
+//@   ensures [consumed] err == nil ==> n == consumedBy(data, #n0) && n <= len(data)
+//@   ensures [rejects] err != nil && !errors.Is(err, ErrOptionsTooSmall) ==> prefixOK(data, #n0) && !terminal(data, rawStart(data, #n0)) && !rawOK(data, #n0)
+//@   ensures [too-small-prefix] errors.Is(err, ErrOptionsTooSmall) ==> prefixOK(data, #n0)
 //@   ensures [too-small-ok] errors.Is(err, ErrOptionsTooSmall) ==> rawOK(data, #n0)
 //@   ensures [too-small-cap] errors.Is(err, ErrOptionsTooSmall) ==> cap(old(*options)) == len(old(*options)) + nKept(data, optionDefs, #n0)
 //@   ensures [n-err] err != nil ==> n == -1
-//@   ensures [count] err == nil ==> len(*options) == len(old(*options)) + nKept(data, optionDefs, #n0)
 //@   ensures [same-array] (*options)[0:0] == old(*options)[0:0] && cap(*options) == cap(old(*options))
-//@   ensures [fields] err == nil ==> forall j int :: {rawStart(data, j)} 0 <= j && j < #n0 && keptRaw(data, optionDefs, j) ==> 0 <= nKept(data, optionDefs, j) && nKept(data, optionDefs, j) < nKept(data, optionDefs, #n0) && (*options)[len(old(*options)) + nKept(data, optionDefs, j)].ID == rawNum(data, j+1) && (*options)[len(old(*options)) + nKept(data, optionDefs, j)].Value == data[rawValPos(data, j) : rawValPos(data, j) + rawLen(data, rawStart(data, j))]
+//@   ensures [fields] err == nil ==> decodedOpts(*options, len(old(*options)), data, optionDefs, #n0)
 //@   ensures [prefix-kept] forall i int :: {(*options)[i].ID} 0 <= i && i < len(old(*options)) ==> (*options)[i] == old((*options)[i])
 //@   loop 0:
 //@     modifies *options, (*options)[len(*options) : cap(*options)]
@@ -159,3 +167,10 @@ package message
 //@     invariant forall j int :: {rawStart(old(data), j)} 0 <= j && j < #iter && keptRaw(old(data), optionDefs, j) ==> 0 <= nKept(old(data), optionDefs, j) && nKept(old(data), optionDefs, j) < nKept(old(data), optionDefs, #iter) && (*options)[len(old(*options)) + nKept(old(data), optionDefs, j)].ID == rawNum(old(data), j+1) && (*options)[len(old(*options)) + nKept(old(data), optionDefs, j)].Value == old(data)[rawValPos(old(data), j) : rawValPos(old(data), j) + rawLen(old(data), rawStart(old(data), j))]
 //@     invariant forall i int :: {(*options)[i].ID} 0 <= i && i < len(old(*options)) ==> (*options)[i] == old((*options)[i])
 //@     decreases len(data)
+//
+//@ func ValidateMID(mid int32) (r bool)
+//@   ensures [range] r <==> (0 <= mid && mid <= 65535)
+//
+//@ func ValidateType(typ Type) (r bool)
+//@   ensures [wire-range] r <==> (0 <= typ && typ <= 3)
+//@   known-finding [wire-range] D3: 4 <= typ && typ <= 255
